@@ -53,7 +53,7 @@ class Machine:
 
     def width(self, name):
         o = self.objs[name]
-        return 1 if o["kind"] == "bit" else o.get("w", self.W)
+        return 1 if o["kind"] in ("bit", "bool") else o.get("w", self.W)
 
     def _push_targets(self, body):
         out = set()
